@@ -230,6 +230,8 @@ def specs(tier, seed):
         S.append(('r', t, (('schedule', (('run', 2), ('run', 3))),)))
     S.append(('r', 'T1', (('schedule', (('run_stop', 4, ('encoder', 2, 'greater_than', 'rad')),)),)))
     S.append(('r', 'T1', (('schedule', (('run', 3),)), ('dt_unit', 'ms'))))
+    S.append(('r', 'T1', (('schedule', (('run', 2), ('reset',), ('reinit',), ('run', 3))),)))
+    S.append(('r', 'T4', (('schedule', (('run', 2), ('reset',), ('reinit',), ('run', 2), ('run', 2))),)))
     S.append(('r', 'T1', (('schedule', (('run', 2), ('run', 2, 'hour'))),)))
     ns = (2, 3, 7, 10, 30) if tier == 'quick' else tuple(range(2, 101))
     for n in ns:
@@ -258,7 +260,7 @@ def build(sp):
 JOB_CAP = {'quick': 900, 'thorough': 3000}
 REQUIRED_TRIGGERS = {'quick': ('grid.number_of_instants', 'grid.uniform', 'grid.stopped_run_is_a_prefix', 'fp.grid')}
 BOUNDS = {
-    'quick': 'R mode: Solver.run with a symbolic dt (every parameter symbolic), K in {2,3}, continuation 2+2; concrete dt K=6, 2+3; stop prefix, '
+    'quick': 'R mode: Solver.run with a symbolic dt (every parameter symbolic), K in {2,3}, continuation 2+2; concrete dt K=6, 2+3; stop prefix, reset + rerun (+ continuation) on the same Solver, '
              'dt in ms, continuation in hours; Float64 mode through the real Solver.run on an equilibrium configuration: one '
              'exploration per n in {2,3,7,10,30}, dt ANY double in [1e-4,1e4], T = dt*n through TimeInterval.__mul__; decimal '
              'dt = m/10^e with m <= 500, e in {1,2} and T the decimal literal n*m/10^e for n = 7; units sec (all n), '
